@@ -64,11 +64,33 @@ pub fn worker(prop: &str, tier: Tier, base: u64, start: u64, count: u64, threads
         .ok()
         .and_then(|s| s.parse::<f64>().ok());
     let t0 = Instant::now();
+    // Watchdog: a simulation takes milliseconds to seconds of real time. A run that makes no progress for
+    // MLSIM_STUCK_S seconds (default 120; 600 for C14, whose longest runs take 45 s) means an actor blocked in a *real* blocking call (for example a
+    // send on a full bounded channel) - the scheduler thread itself is then parked for good. The worker
+    // reports the run and exits with code 86; the parent re-runs the unfinished runs one by one.
+    let stuck_s: f64 = std::env::var("MLSIM_STUCK_S").ok().and_then(|s| s.parse().ok()).unwrap_or(if prop == "C14" { 600.0 } else { 120.0 });
+    let slots: Arc<Mutex<Vec<Option<(u64, Instant)>>>> = Arc::new(Mutex::new(vec![None; threads]));
+    {
+        let slots = slots.clone();
+        let out = out.clone();
+        std::thread::spawn(move || loop {
+            std::thread::sleep(std::time::Duration::from_millis(500));
+            let stuck: Option<u64> = slots.lock().unwrap().iter().flatten().find(|(_, t)| t.elapsed().as_secs_f64() > stuck_s).map(|(i, _)| *i);
+            if let Some(i) = stuck {
+                if let Ok(mut o) = out.lock() {
+                    let _ = writeln!(o, "{}", json!({"stuck": i}));
+                    let _ = o.flush();
+                }
+                std::process::exit(86);
+            }
+        });
+    }
     let mut handles = vec![];
-    for _ in 0..threads {
+    for tnum in 0..threads {
         let next = next.clone();
         let out = out.clone();
         let prop = prop.to_string();
+        let slots = slots.clone();
         handles.push(
             std::thread::Builder::new()
                 .stack_size(16 * 1024 * 1024)
@@ -90,8 +112,12 @@ pub fn worker(prop: &str, tier: Tier, base: u64, start: u64, count: u64, threads
                         let _ = o.flush();
                     }
                     let ctx = RunCtx::at(base, i, seed, tier);
+                    let t_run = Instant::now();
+                    slots.lock().unwrap()[tnum] = Some((i, t_run));
                     let r = run_one(&prop, &ctx);
-                    let line = report_to_json(i, seed, &r);
+                    slots.lock().unwrap()[tnum] = None;
+                    let mut line = report_to_json(i, seed, &r);
+                    line["wall_ms"] = json!(t_run.elapsed().as_millis() as u64);
                     let mut o = out.lock().unwrap();
                     let _ = writeln!(o, "{}", line);
                     let _ = o.flush();
@@ -120,6 +146,7 @@ struct Agg {
     det: BTreeMap<u64, u64>,
     started: BTreeSet<u64>,
     done: BTreeSet<u64>,
+    max_run_wall_ms: u64,
 }
 
 impl Agg {
@@ -133,6 +160,7 @@ impl Agg {
         };
         self.done.insert(i);
         self.evaluations += 1;
+        self.max_run_wall_ms = self.max_run_wall_ms.max(v["wall_ms"].as_u64().unwrap_or(0));
         if v["nontrivial"].as_bool().unwrap_or(false) {
             self.nontrivial += 1;
             if let Some(f) = v["fingerprint"].as_u64() {
@@ -329,6 +357,23 @@ pub fn replay(path: &str) -> i32 {
         .map(|a| a.iter().filter_map(|x| x.as_u64()).map(|x| x as usize).collect())
         .unwrap_or_default();
     ctx.verbose = true;
+    if matches!(doc["expect_class"].as_str(), Some("process-abort") | Some("process-hang")) {
+        // these runs take the process down (or block it): replay in a child process
+        let mut one = Agg::default();
+        let c = spawn_worker(&prop, tier, ctx.base, ctx.index, 1, 1, None, &mut one);
+        println!("replay property={prop} seed={seed} in a child process: exit code {c:?}");
+        let reproduced = match doc["expect_class"].as_str() {
+            Some("process-hang") => c == Some(86),
+            _ => c != Some(0) && c != Some(86),
+        };
+        if reproduced {
+            println!("REPRODUCED exactly (the child process {})", if c == Some(86) { "stopped making progress" } else { "aborted" });
+            println!("VIOLATION property={prop} replay={path}");
+            return 1;
+        }
+        println!("no violation in this replay");
+        return 0;
+    }
     let r = run_one(&prop, &ctx);
     println!("replay property={prop} seed={seed} det_hash={} expected={}", r.det_hash, doc["expect_det_hash"]);
     if let Some(p) = &r.plan_dump {
@@ -391,14 +436,21 @@ pub fn check(prop: &str, tier: Tier) -> i32 {
     let mut agg = Agg::default();
     let code = spawn_worker(prop, tier, base, 0, count, threads, Some(wall_cap), &mut agg);
     let mut aborted: Vec<u64> = vec![];
+    let mut hung: Vec<u64> = vec![];
     if code != Some(0) {
         // the worker died (abort, stack overflow, kill): find the culprit among unfinished runs
         let unfinished: Vec<u64> = agg.started.difference(&agg.done).copied().collect();
         println!("worker process ended abnormally (code {:?}); re-running {} unfinished runs one by one", code, unfinished.len());
         for i in unfinished {
+            if hung.len() + aborted.len() >= 2 {
+                println!("(two culprits found; the remaining unfinished runs are not re-run)");
+                break;
+            }
             let mut one = Agg::default();
             let c = spawn_worker(prop, tier, base, i, 1, 1, None, &mut one);
-            if c != Some(0) {
+            if c == Some(86) {
+                hung.push(i);
+            } else if c != Some(0) {
                 aborted.push(i);
             } else {
                 for v in one.violations.drain(..) {
@@ -445,16 +497,25 @@ pub fn check(prop: &str, tier: Tier) -> i32 {
 
     let mut exit = 0;
     let mut replay_paths = vec![];
-    if !aborted.is_empty() {
-        for i in &aborted {
+    if !aborted.is_empty() || !hung.is_empty() {
+        for (i, is_hang) in aborted.iter().map(|i| (i, false)).chain(hung.iter().map(|i| (i, true))) {
             let seed = run_seed(base, prop, *i);
             let mut r = Report::default();
-            r.violation = Some(props::Violation {
-                class: "process-abort".into(),
-                key: "process-abort".into(),
-                detail: "the worker process aborted (abort/stack overflow/signal) while executing this run".into(),
+            r.violation = Some(if is_hang {
+                props::Violation {
+                    class: "process-hang".into(),
+                    key: "process-hang".into(),
+                    detail: "the simulation stopped making progress in real time: a node's actor blocked in a real blocking call (e.g. a send on a full bounded channel towards an API stream nobody reads) and never returned to the simulated socket; every API call on that node hangs".into(),
+                }
+            } else {
+                props::Violation {
+                    class: "process-abort".into(),
+                    key: "process-abort".into(),
+                    detail: "the worker process aborted (abort/stack overflow/signal) while executing this run".into(),
+                }
             });
-            let path = write_replay(prop, base, *i, seed, tier, &[], &r, "-abort");
+            println!("violation in run i={i} seed={seed} class={}: {}", r.violation.as_ref().unwrap().class, r.violation.as_ref().unwrap().detail);
+            let path = write_replay(prop, base, *i, seed, tier, &[], &r, if is_hang { "-hang" } else { "-abort" });
             println!("VIOLATION property={prop} replay={}", path.display());
             replay_paths.push(path.display().to_string());
         }
@@ -562,6 +623,7 @@ pub fn check(prop: &str, tier: Tier) -> i32 {
             "faults_fired": agg.faults,
             "probes": agg.probes,
             "determinism": {"reran": reran, "mismatches": mismatches.len()},
+            "max_run_wall_ms": agg.max_run_wall_ms,
             "statistical_verdicts": floor_report,
             "known_findings_hit": known_hits.iter().map(|(k, v)| json!({"key": k, "runs": v.0})).collect::<Vec<_>>(),
             "replays": replay_paths,
@@ -573,21 +635,22 @@ pub fn check(prop: &str, tier: Tier) -> i32 {
         },
         "assumptions": info.assumptions,
         "wall_s": wall,
-        "violations": real_violations.len() + aborted.len(),
+        "violations": real_violations.len() + aborted.len() + hung.len(),
     });
     let dir = verif_dir().join("evidence");
     let _ = std::fs::create_dir_all(&dir);
     let _ = std::fs::write(dir.join(format!("{prop}.json")), serde_json::to_string_pretty(&evidence).unwrap());
     println!(
-        "done property={prop} runs={} nontrivial={} distinct={} vacuous={} violations={} known={} sim_time_s={} wall_s={:.1} exit={exit}",
+        "done property={prop} runs={} nontrivial={} distinct={} vacuous={} violations={} known={} sim_time_s={} wall_s={:.1} max_run_ms={} exit={exit}",
         agg.evaluations,
         agg.nontrivial,
         agg.fingerprints.len(),
         agg.vacuous,
-        real_violations.len() + aborted.len(),
+        real_violations.len() + aborted.len() + hung.len(),
         known_hits.len(),
         (agg.sim_time_ns / 1_000_000_000) as u64,
-        wall
+        wall,
+        agg.max_run_wall_ms
     );
     exit
 }
